@@ -90,4 +90,29 @@ mod verif_f64 {
             assert!(c.is_none());
         }
     }
+
+    // ---- the algebraic laws assumed by the Verus bundle contracts/mtbdd.rs.tpl (num_laws) ----
+    #[kani::proof]
+    fn laws_for_shortcuts() {
+        use std::cmp::Ordering::*;
+        let (x, y) = (any_norm(), any_norm());
+        let (zero, one, nan) = (F64::zero(), F64::one(), F64::nan());
+        assert!(zero != one && zero != nan && one != nan);
+        assert!(x.is_zero() == (x == zero) && x.is_one() == (x == one) && NumberBase::is_nan(&x) == (x == nan));
+        assert!(x.partial_cmp(&x) == Some(Equal));
+        if x != nan { assert!(nan.partial_cmp(&x).is_none() && x.partial_cmp(&nan).is_none()); }
+        if x.partial_cmp(&y) == Some(Equal) { assert!(x == y); }
+        assert!((x.partial_cmp(&y) == Some(Less)) == (y.partial_cmp(&x) == Some(Greater)));
+        assert!(x.partial_cmp(&y).is_none() == y.partial_cmp(&x).is_none());
+    }
+    #[kani::proof]
+    fn law_add_commutative() {
+        let (x, y) = (any_norm(), any_norm());
+        assert!(NumberBase::add(&x, &y) == NumberBase::add(&y, &x));
+    }
+    #[kani::proof]
+    fn law_mul_commutative() {
+        let (x, y) = (any_norm(), any_norm());
+        assert!(NumberBase::mul(&x, &y) == NumberBase::mul(&y, &x));
+    }
 }
